@@ -123,3 +123,32 @@ Definition sflow_cell_ok (name cell : string) : bool :=
   end.
 Definition sflow_doc_failures : list string :=
   flat_map (fun r => let '(name, cell) := r in if sflow_cell_ok name cell then [] else [name]) doc_sflow.
+
+(* ---- the shapes the sFlow record decoder of the model reads ARE the Go structs of decoders/sflow/datastructure.go
+   (Spec/DocTable.v sflow_structs, regenerated on every build): kind of each field in declaration order ---- *)
+Definition shape_of (fields : list (string * string)) : list string := map snd fields.
+Definition struct_shape (name : string) : list string :=
+  match find (fun r => String.eqb (fst r) name) sflow_structs with Some (_, fs) => shape_of fs | None => [] end.
+Definition strings_eqb (a b : list string) : bool :=
+  (Nat.eqb (length a) (length b)) && forallb (fun p => String.eqb (fst p) (snd p)) (combine a b).
+Definition u32n (n : nat) : list string := repeat "uint32" n.
+Definition sflow_layout_ok : bool :=
+  (* format 1: four words, then the header bytes *)
+  strings_eqb (struct_shape "SampledHeader") (u32n 4 ++ ["[]byte"]) &&
+  (* format 2: length, two MACs, type *)
+  strings_eqb (struct_shape "SampledEthernet") ["uint32"; "utils.MacAddress"; "utils.MacAddress"; "uint32"] &&
+  (* formats 3 / 4: two words, two addresses, three words (+ one more in the outer struct) *)
+  strings_eqb (struct_shape "SampledIPBase") (u32n 2 ++ ["utils.IPAddress"; "utils.IPAddress"] ++ u32n 3) &&
+  strings_eqb (struct_shape "SampledIPv4") ["SampledIPBase"; "uint32"] &&
+  strings_eqb (struct_shape "SampledIPv6") ["SampledIPBase"; "uint32"] &&
+  strings_eqb (struct_shape "ExtendedSwitch") (u32n 4) &&
+  strings_eqb (struct_shape "ExtendedRouter") (["uint32"; "utils.IPAddress"] ++ u32n 2) &&
+  strings_eqb (struct_shape "ExtendedGateway")
+    (["uint32"; "utils.IPAddress"] ++ u32n 6 ++ ["[]uint32"; "uint32"; "[]uint32"; "uint32"]) &&
+  strings_eqb (struct_shape "EgressQueue") (u32n 1) &&
+  strings_eqb (struct_shape "ExtendedACL") ["uint32"; "string"; "uint32"] &&
+  strings_eqb (struct_shape "ExtendedFunction") ["string"] &&
+  (* counters: the widths the model reads with *)
+  strings_eqb (struct_shape "IfCounters")
+    (map (fun w => if Nat.eqb w 8 then "uint64" else "uint32") if_counters_ws) &&
+  strings_eqb (struct_shape "EthernetCounters") (u32n 13).
